@@ -77,6 +77,56 @@ func c01Quiet() {
 	logx.Disable()
 }
 
+// ---------------------------------------------------------------- liveness guard
+
+// c01Watchdog bounds one scenario (a history, a phase) that takes milliseconds on
+// a healthy tree. Generous because the machine is shared.
+const c01Watchdog = 45 * time.Second
+
+// c01Stuck is set once an entry point of the registry was seen not to return;
+// later tests of the same process do not start (they would block on the same lock).
+var c01Stuck bool
+
+// c01ReportHang classifies a fired watchdog: goroutines parked inside the named
+// registry's own functions (Get / NoBreakerFor / the package-level Do* forms) on
+// its lock are the witness of "Get(name) / Do(name, ...) never returns".
+func c01ReportHang(m *vk.M, desc string) {
+	c01Stuck = true
+	var parked []string
+	for _, fn := range []string{"lib/breaker.Get(", "lib/breaker.NoBreakerFor(", "lib/breaker.do("} {
+		for _, b := range vk.GoroutinesIn(fn) {
+			if strings.Contains(b, "sync.(*RWMutex)") || strings.Contains(b, "sync.(*Mutex)") || strings.Contains(b, "semacquire") {
+				parked = append(parked, b)
+			}
+		}
+	}
+	if len(parked) > 0 {
+		dump := strings.Join(parked, "\n\n")
+		m.Violate("C01:registry:hang", desc, "a call into the named registry did not return within %v (it takes microseconds on a healthy tree); %d goroutine(s) parked on the registry lock:\n%s", c01Watchdog, len(parked), dump)
+		return
+	}
+	m.Inconclusive("scenario did not finish within %v and no goroutine is parked in the registry (%s)", c01Watchdog, desc)
+}
+
+// c01Guarded runs f under the watchdog, recovering a panic of f.
+func c01Guarded(m *vk.M, desc string, f func()) (any, bool, bool) {
+	var pval any
+	var panicked bool
+	ok := vk.Within(c01Watchdog, func() { pval, panicked = vk.Recover(f) })
+	if !ok {
+		c01ReportHang(m, desc)
+		return nil, false, true
+	}
+	return pval, panicked, false
+}
+
+func c01SkipIfStuck(m *vk.M) bool {
+	if c01Stuck {
+		m.Note("not started: an earlier test of this process found the registry lock stuck (C01:registry:hang)")
+	}
+	return c01Stuck
+}
+
 // ---------------------------------------------------------------- model
 
 type c01Slot struct {
@@ -714,6 +764,9 @@ func c01SetupClock(m *vk.M) func() {
 func TestVerifC01Model(t *testing.T) {
 	m := vk.New(t, "C01", "seeded histories of 200-2000 steps on 3 breakers (New + 2 registry names): Do/DoWithAcceptable/DoWithFallback/DoWithFallbackAcceptable/Allow(+deferred Accept/Reject), direct and via the package-level named forms; outcomes ok / acceptable err / unacceptable err / req itself returning ErrServiceUnavailable / panic under predicates std/all/none; virtual-clock advances {0,1ms,249/250/251ms,1s,9.74-9.76s,9.99/10/10.01s,1h,uniform,bucket edge -1ns/exact} before and inside calls; model of 40x250ms buckets compared with history() before and after every step; non-trivial = at least one rejection observed in the history")
 	defer m.Done()
+	if c01SkipIfStuck(m) {
+		return
+	}
 	defer c01SetupClock(m)()
 	n := vk.N(300, 20000)
 	r := m.Rand("model")
@@ -728,7 +781,7 @@ func TestVerifC01Model(t *testing.T) {
 		m.Current(fmt.Sprintf("case=%d;history of %d steps", idx, len(steps)))
 		run := &c01Run{m: m, stats: stats, idx: idx}
 		var names []string
-		pval, panicked := vk.Recover(func() {
+		pval, panicked, hung := c01Guarded(m, fmt.Sprintf("case=%d;history of %d steps", idx, len(steps)), func() {
 			var brks []*c01Brk
 			brks, names = c01NewBreakers(m, br, fmt.Sprint(idx), 3)
 			for _, hb := range brks {
@@ -765,6 +818,9 @@ func TestVerifC01Model(t *testing.T) {
 				}
 			}
 		})
+		if hung {
+			return
+		}
 		if panicked {
 			m.Violate("C01:harness-observed-panic", run.desc(-1), "unexpected panic escaped a history: %v", pval)
 		}
@@ -800,6 +856,9 @@ func TestVerifC01Model(t *testing.T) {
 func TestVerifC01TripRecover(t *testing.T) {
 	m := vk.New(t, "C01", "scripted per breaker: S successes (0 rejections) -> failing calls until >= 500 failures are in the window -> next 200 failing calls must see >= 1 rejection -> advance {10s,10.01s,12s,1h} (everything aged out) -> 300 calls of mixed successful kinds, 0 rejections; every step also checked by the model (clauses a-d); non-trivial = breaker tripped")
 	defer m.Done()
+	if c01SkipIfStuck(m) {
+		return
+	}
 	defer c01SetupClock(m)()
 	n := vk.N(12, 300)
 	r := m.Rand("trip")
@@ -818,7 +877,7 @@ func TestVerifC01TripRecover(t *testing.T) {
 		var names []string
 		var rejIn200, attempts int64
 		tripped := false
-		pval, panicked := vk.Recover(func() {
+		pval, panicked, hung := c01Guarded(m, fmt.Sprintf("case=%d;trip/recover succ=%d", idx, succ), func() {
 			var brks []*c01Brk
 			brks, names = c01NewBreakers(m, br, fmt.Sprintf("trip%d", idx), 2)
 			hb := brks[idx%2]
@@ -896,6 +955,9 @@ func TestVerifC01TripRecover(t *testing.T) {
 				m.Count("recoveries_without_rejection", 1)
 			}
 		})
+		if hung {
+			return
+		}
 		if panicked {
 			m.Violate("C01:harness-observed-panic", run.desc(-1), "unexpected panic escaped a trip/recover scenario: %v", pval)
 		}
@@ -917,6 +979,9 @@ func TestVerifC01TripRecover(t *testing.T) {
 func TestVerifC01Disabled(t *testing.T) {
 	m := vk.New(t, "C01", "NoBreakerFor(X) on a fresh or an already tripped name X, with a bystander name B: Get(B) keeps returning B's breaker; 300 calls on X through Get(X) and the package-level named forms (all kinds and outcomes) obey the per-call clauses and are never rejected while the outcomes recorded for X (including those before the opt-out) satisfy total-5 <= 1.5*accepts; afterwards 400 failing calls on B still see >= 1 rejection; non-trivial = bystander tripped")
 	defer m.Done()
+	if c01SkipIfStuck(m) {
+		return
+	}
 	defer c01SetupClock(m)()
 	n := vk.N(20, 300)
 	r := m.Rand("disabled")
@@ -933,7 +998,7 @@ func TestVerifC01Disabled(t *testing.T) {
 		desc := fmt.Sprintf("case=%d;NoBreakerFor(%q) pre-tripped=%v fail%%=%d bystander %q", idx, x, pre, failPct, b)
 		m.Current(desc)
 		tripped := false
-		pval, panicked := vk.Recover(func() {
+		pval, panicked, hung := c01Guarded(m, desc, func() {
 			bInst := Get(b)
 			var preFail int64 // failures the name's previous breaker recorded (still in the frozen window)
 			if pre {
@@ -994,6 +1059,9 @@ func TestVerifC01Disabled(t *testing.T) {
 			}
 			tripped = true
 		})
+		if hung {
+			return
+		}
 		if panicked {
 			m.Violate("C01:harness-observed-panic", desc, "unexpected panic: %v", pval)
 		}
